@@ -43,7 +43,7 @@ PROPS["C01"] = dict(
           "(recursion with a decreasing counter), closures with 1..3 parameters, currying, closures returned from functions and stored in "
           "maps, if, switch, try/catch (value and closure form, thrown tokens), list/map literals, index, member access, method calls, "
           "static functions; binding constructs are placed in every let-position (call/method/static arguments, list items, map values, "
-          "branches); local names are reused across sibling scopes, shadow outer names and static function names; ~20% of the programs "
+          "branches); local names are reused across sibling scopes, shadow static function names, and with 15% a declared name (let, func, parameter) is one that is visible from an enclosing function - an argument, an outer let, func or parameter (legal shadowing across function bodies, incl. 'let y = y*10' inside a closure and nested closures that capture the redeclared name); the list form of membership (list ~ list) is generated; ~20% of the programs "
           "may contain failing or ill-typed sub-terms. Each program is rendered to text, evaluated on value.New() with the default "
           "optimizer and with SetOptimizer(nil), and compared deeply with the reference interpreter's outcome for 1..3 generated "
           "arguments. A case is non-trivial if the reference run read at least one let/func/parameter binding and the program mentions "
@@ -63,7 +63,7 @@ PROPS["C02"] = dict(
     rule=("programs from the C01 generator with a constant-rich profile (literal-heavy sub-terms, constant closures applied to constants, "
           "constant lists/maps with index/member access, if/switch on constant conditions, chains of the regroupable operator '*' mixing "
           "constants and variables in every position, '&'/'|' on booleans and ints, string '+' chains, throw in taken and untaken "
-          "branches, calls of the host functions pk (declared pure) and ik (declared impure) with call counters). Three-way oracle: "
+          "branches, calls of the host functions pk (declared pure) and ik (declared impure) with call counters; closures that capture nothing, applied to argument-independent values, with host calls inside; templates of nested closures and recursive funcs that capture nothing from the program, where the inner closure captures a parameter of the outer one and calls ik - only the impure call keeps the optimizer from folding the whole expression). Three-way oracle: "
           "optimizer on vs optimizer off vs reference interpreter (values; exact, 1e-9 relative only when a float product was rounded); "
           "ik is never executed during Generate and runs equally often on both sides and - when it does not sit inside a closure body - "
           "as often as the reference demands. The float and bool instantiations are covered by the sampled jobs of package c19 "
@@ -228,7 +228,7 @@ PROPS["C14"] = dict(
           "maps (list map, hash map, put chain, merged) to depth 2; b and c are derived from their predecessor (same value in another "
           "representation, numeric neighbour, int<->float twin, one element changed, key order rotated) or drawn fresh. Every ordered pair "
           "is evaluated under = != < > <= >= ~ on the run-time path (operands as arguments) and on the constant-folding path (operands as "
-          "literals). Oracle: the laws themselves (symmetry and reflexivity of =, irreflexivity, asymmetry and transitivity of <, != is the "
+          "literals). Every value is also compared with ITSELF as the very same object (a op a with one argument, [1,a] op [1,a], {k:a} op {k:a}, let l=[a,1]; l op l, let m={k:a}; m op m, on both paths): the outcome must be the one of two separately built copies (element-wise: NaN makes = false, a closure makes it fail). Oracle: the laws themselves (symmetry and reflexivity of =, irreflexivity, asymmetry and transitivity of <, != is the "
           "negation of =, > is swapped <, <= is < or =, >= is swapped <=, x~l is 'some element equals x', incomparable operands fail in all "
           "six operators) plus a model comparator; containers holding both an unequal and an incomparable pair are order dependent: false or "
           "error accepted, never true. min/max/list.min/list.max/minMax/order/switch must agree with < and =. Non-trivial: operands of "
@@ -267,7 +267,7 @@ PROPS["C09"] = dict(
           "evaluated lists, map literals, put chains). Steps derive a new handle from existing ones through compiled one-operation functions "
           "that are reused across steps (append of an int or of another handle, set, reverse, order, +, top, skip, map, accept, eval, "
           "combineN(n,l->l) with and without eval, iir building lists by append, number, put, replace, map +, map eval, list(), map map) or "
-          "consume one (first, size, sum); a third of the steps derives again from the parent of the previous step (branching). Oracle: a "
+          "further derivations (orderRev, orderLess, combine, combine3, compact, cross, merge, iir, uniqueInt, groupByInt, replaceList, map combine, map accept) or only observe one or two handles (first, size, sum, last, string, minMax, max, mean, reduce, mapReduce, indexWhere, present, visit, x ~ a, a ~ b as lists, a = b, map get): an operation never changes its operands; a third of the steps derives again from the parent of the previous step (branching). Oracle: a "
           "purely functional model (the reference library); after EVERY step EVERY live handle must still have the model's element "
           "sequence / key-value set, size(), string() and be = to a freshly built literal of the model in both operand orders. In a third "
           "of the cases the whole history is rendered as ONE program of lets (constant-folded parents, compile-time appends) and evaluated "
@@ -346,7 +346,7 @@ PROPS["C07"] = dict(
           "cross merge order orderRev orderLess reverse append iir iirCombine iirApply visit fsm top skip number present set size first "
           "single last eval string movingWindow movingWindowRemove createInterpolation linearReg, ~, +, index), every map method, every "
           "string method, the closure methods and the numeric static functions: receivers are empty, singleton, with duplicates, "
-          "sorted/reversed, mixed int/float, numbers(n), string lists (unicode), record lists, a generated list argument; callbacks are "
+          "sorted/reversed, mixed int/float, numbers(n), string lists (unicode), record lists, a generated list argument; the list arguments of cross, merge and + are lazy pipelines of 1..2 further stages in half of the cases (cross replays its second operand); callbacks are "
           "total, partial (throw at one element) or type-changing; numeric arguments include 0, negatives and values beyond the list size; "
           "up to 4 stages are composed before a terminal. In 20% of the cases misuse is injected: wrong argument type, callback of wrong "
           "arity or result type, a missing or surplus argument. Oracle: the eager reference library (harness/ref) - exact value, lists of "
@@ -396,13 +396,12 @@ PROPS["C08"] = dict(
     rule=("pipelines numbers(N) with N from {1e11, 5e9, 1e9, 100, 20, 3, 1, 0} -> map(e->cnt(e)) (cnt is a counting host function; in 1/8 of the "
           "cases it is slow for the first 14 elements, which forces the switch to parallel execution) -> 0..4 lazy stages from accept, skip, "
           "top, map, combine, number, iir, + -> a short-circuit consumer from first, top(n).size(), top(n).mapReduce, present, indexWhere, "
-          "top(1).single(), membership (~), multiUse({first, top(n).size()}), with the decisive element at every position k in 0..64 and "
-          "around 12 and the CPU count; in a third of the cases the counting closure throws at the first source index behind the read-ahead "
-          "window; in 1/6 of the cases the pipeline is only built (bound by let, or returned lazily) and not consumed. Oracle: a pull-based "
+          "top(1).single(), membership (x ~ list and the list form [a,b] ~ list), multiUse({first, top(n).size()}), with the decisive element at every position k in 0..64 and "
+          "around 12 and the CPU count; in a third of the cases the counting closure throws at one source index: in half of them at D..D+5, directly behind the decisive prefix (an evaluation may read that element ahead but must not report its error), otherwise at the first index behind the read-ahead window; in 1/6 of the cases the pipeline is only built (bound by let, or returned lazily) and not consumed. Oracle: a pull-based "
           "Go model of every stage with the same value semantics computes D, the exact number of source elements a demand-driven "
           "evaluation needs, and D_hi, the demand when every point that may read one element ahead does so (each top, the multiUse "
           "distributor); while no closure ran on a goroutine other than the caller's (every map/accept closure carries a goroutine probe) "
-          "calls <= D_hi+1 is required, the value equals the model's, a failing element behind the window does not surface, and an "
+          "calls <= D_hi+1 is required, the value equals the model's, the error of a failing element behind the decisive one is not reported, and an "
           "unconsumed pipeline makes 0 calls. Cases whose decisive demand exceeds 200 000 are skipped (not short-circuit). Non-trivial: "
           "N >= 1e9 or a failing element is present, and D < N; distinct = the whole case."),
     assumptions=["the counting function aborts the evaluation 100 000 calls behind the bound, so that a non-lazy implementation fails fast instead of hanging",
@@ -427,7 +426,7 @@ PROPS["C05"] = dict(
           "that grows the value stack. Contexts: top level, inside a closure, a sequential map/accept, a forced-parallel map/accept (fault "
           "at element 20, workers from element 12), the stage behind a parallel map (collector goroutine), a merge operand, the merge "
           "comparator, a multiUse consumer and its source, the key/compare closures of order and orderLess, reduce, a map literal, a switch "
-          "case, nested try, and a lazy result that the host forces after Eval returned; GOMAXPROCS from {1,2,4,16}; optimizer on/off. "
+          "case, nested try, and a lazy result that the host forces after Eval returned; in a third of the sampled cases the fault is raised by the closure of a list stage of any kind (map accept number iir iir-initial iirCombine combine combine3 combineN compact cross fsm) placed as merge operand, merge receiver, merge operand behind a consumer that stops at once, multiUse source, inside a multiUse consumer, behind a parallel map (collector goroutine), consumed sequentially, or returned lazily; GOMAXPROCS from {1,2,4,16}; optimizer on/off. "
           "Oracle: the process survives (a death is attributed through the pending-case file and confirmed in isolation), the evaluation "
           "call does not panic, forcing a lazy result delivers language-level faults as errors, and the outcome equals the reference "
           "interpreter's: an error when the sub-term faults, the catch value when wrapped in try. Non-trivial: the reference raised the "
